@@ -93,6 +93,7 @@ def plan(tier, seed):
     items.append({"kind": "socks", "exhaustive": "proxy_type socks4/4a/5/5h (python_socks stand-in) x scheme x credentials x exemption list (option / environment) relations"})
     items.append({"kind": "ipv6", "exhaustive": "IPv6 literal target x scheme x target port x credentials x no_proxy {none, *, other, itself} x api"})
     items.append({"kind": "portless", "exhaustive": "every proxy environment variable x proxy URL with / without port x target port"})
+    items.append({"kind": "successive", "exhaustive": "judged connection {proxy+credentials A, proxy without credentials, exempt, direct} after earlier connections of the process {credentials B, none, exempt, direct} x scheme x api"})
     items.append({"kind": "redirects", "exhaustive": "redirect from (scheme, host) to (scheme, host) x proxy by option / environment x exemption of either host"})
     n = 6000 if tier == "quick" else 480000
     per = 250 if tier == "quick" else 2500
@@ -128,6 +129,14 @@ def expand(item, seed):
                     yield _base(host=ip, opt_proxy=False, scheme="wss" if p % 2 else "ws",
                                 env={("https_proxy" if p % 2 else "http_proxy"): f"http://{PROXY_HOST}:{PROXY_PORT}",
                                      "NO_PROXY" if p % 4 == 0 else "no_proxy": "localhost, " + c})
+    elif k == "successive":
+        pres = ({"opt_proxy": True, "opt_auth": ["bob", "bpw"]}, {"opt_proxy": True}, {"opt_proxy": True, "opt_no_proxy": ["a.b"]}, {"opt_proxy": False})
+        for scheme in ("ws", "wss"):
+            for api in (None, "app"):
+                for judged in ({"opt_auth": ["alice", "apw"]}, {"opt_auth": None}, {"opt_no_proxy": ["a.b"]}, {"opt_proxy": False}):
+                    for p1 in pres:
+                        yield _base(scheme=scheme, api=api, prelude=[dict(p1)], **judged)
+                        yield _base(scheme=scheme, api=api, prelude=[dict(p1), {"opt_proxy": True, "opt_auth": ["carol", "cpw"]}], **judged)
     elif k == "app":
         for scheme in ("ws", "wss"):
             for auth in (None, ["user", "secret"], ["solo", ""]):
@@ -238,6 +247,9 @@ def gen(rng):
         sc["socks"] = rng.choice(("socks4", "socks4a", "socks5", "socks5h"))
     if not sc.get("redirect") and rng.random() < 0.06 and not any("/" in e for e in (sc.get("opt_no_proxy") or [])):
         sc["host"] = V6
+    if not sc.get("redirect") and not sc.get("socks") and sc.get("status", 200) == 200 and rng.random() < 0.15:
+        sc["prelude"] = [rng.choice(({"opt_proxy": True, "opt_auth": ["bob", "bpw"]}, {"opt_proxy": True}, {"opt_proxy": False},
+                                     {"opt_proxy": True, "opt_no_proxy": ["*"]})) for _ in range(rng.randrange(1, 3))]
     return sc
 
 
@@ -283,6 +295,17 @@ def _run(sc, choices=None):
         for e in (opt_np or []):
             if not isinstance(e, str) or not e or e != e.lower() or " " in e:
                 raise InvalidScenario("no_proxy entry")
+        prelude = list(sc.get("prelude") or [])
+        if len(prelude) > 3 or (prelude and (socks or sc.get("redirect") or status != 200)):
+            raise InvalidScenario("prelude")
+        for pre in prelude:
+            if not isinstance(pre, dict) or set(pre) - {"opt_proxy", "opt_auth", "opt_no_proxy"}:
+                raise InvalidScenario("prelude entry")
+            if pre.get("opt_auth") is not None and (len(pre["opt_auth"]) != 2 or not pre["opt_auth"][0]):
+                raise InvalidScenario("prelude auth")
+            for e in (pre.get("opt_no_proxy") or []):
+                if not isinstance(e, str) or not e or e != e.lower() or " " in e:
+                    raise InvalidScenario("prelude no_proxy entry")
     except (KeyError, TypeError, ValueError) as e:
         raise InvalidScenario(str(e))
     if sc.get("redirect"):
@@ -346,6 +369,28 @@ def _run(sc, choices=None):
             import ssl
             kw["sslopt"] = {"cert_reqs": ssl.CERT_NONE, "check_hostname": False}
         url_ = f"{scheme}://{uhost}{':%d' % port if sc.get('target_port') is not None else ''}/res?x=1"
+        # 'prelude': connections the same process made before the judged one, to the same target, with their own proxy
+        # options (other credentials, none, exempt ...).  They are not judged; the judged connection must not inherit from them.
+        for pre in prelude:
+            kwp = {}
+            if pre.get("opt_proxy"):
+                kwp["http_proxy_host"] = PROXY_HOST
+                kwp["http_proxy_port"] = PROXY_PORT
+                if pre.get("opt_auth"):
+                    kwp["http_proxy_auth"] = tuple(pre["opt_auth"])
+            if pre.get("opt_no_proxy") is not None:
+                kwp["http_no_proxy"] = list(pre["opt_no_proxy"])
+            if tls:
+                kwp["sslopt"] = dict(kw["sslopt"])
+            try:
+                c0 = ws.create_connection(url_, timeout=3, **kwp)
+                c0.close(timeout=1)
+            except SimAbort:
+                raise
+            except BaseException:  # noqa
+                pass
+            res.probes["earlier_connections_in_process"] = 1
+        n_sock0, n_pp0 = len(w.net.sockets), len(proxy_peers)
         try:
             if sc.get("api") == "app":
                 # the same options through WebSocketApp.run_forever (which has its own defaults for them)
@@ -371,7 +416,8 @@ def _run(sc, choices=None):
             outcome = ("abort", w.k.abort_reason)
         except BaseException as e:  # noqa
             outcome = ("exc", exc_name(e), isinstance(e, ws.WebSocketProxyException), str(e)[:160])
-        open_socks = [s.index for s in w.net.sockets if not s.closed]
+        open_socks = [s.index for s in w.net.sockets[n_sock0:] if not s.closed]
+    proxy_peers = proxy_peers[n_pp0:]
     res.absorb(w, exclude_kinds=("send", "recv", "deliver") if tls else ())
     # ------------------------------------------------------------ independent decision
     entries = opt_np if opt_np else None
@@ -393,8 +439,8 @@ def _run(sc, choices=None):
         src, want_auth = None, None
     want_proxy = src is not None and not ex
     want_pport = PROXY_PORT if src == "option" or (envp and envp.rstrip("/").endswith(f":{PROXY_PORT}")) else 80
-    dialled = [s.connect_attempts[0][0] for s in w.net.sockets if s.connect_attempts]
-    dialled_ports = [s.connect_attempts[0][1] for s in w.net.sockets if s.connect_attempts]
+    dialled = [s.connect_attempts[0][0] for s in w.net.sockets[n_sock0:] if s.connect_attempts]
+    dialled_ports = [s.connect_attempts[0][1] for s in w.net.sockets[n_sock0:] if s.connect_attempts]
     via_proxy = bool(dialled) and dialled[0] == PROXY_ADDR
     rel = _relation(host, entries)
     ctx = f"{rel}"
